@@ -163,6 +163,25 @@ Proof.
 Qed.
 Print Assumptions C17_nonvacuous_crash.
 
+(* two players whose audio sources are yield points (CPlaySrc): the first is pre-empted after one
+   next() in the middle of its first chunk while the second one fills and writes a whole chunk; each
+   device stream still receives its own samples *)
+Example C17_nonvacuous_midchunk :
+  let s := exec (init true [CPlaySrc 2 [1; 2; 3]%Z; CPlaySrc 2 [105; 106]%Z; CClose])
+                (repeat 0 40 ++ [1] ++ repeat 2 20 ++ round_robin 60) in
+  reachable s /\ close_returned s /\ stuck s
+  /\ (exists p q, get_player s 0 = Some p /\ get_player s 1 = Some q
+                  /\ pwritten p = [[1; 2]; [3; 0]]%Z /\ pwritten q = [[105; 106]]%Z
+                  /\ pfill p = 0 /\ ppulls p = []).
+Proof.
+  cbv zeta. split; [eexists _, _, _; reflexivity|].
+  split; [split; vm_compute; reflexivity|].
+  split; [apply enabled_nil_stuck; vm_compute; reflexivity|].
+  eexists; eexists; split; [vm_compute; reflexivity|]. split; [vm_compute; reflexivity|].
+  repeat split; vm_compute; reflexivity.
+Qed.
+Print Assumptions C17_nonvacuous_midchunk.
+
 Example C17_nonvacuous_chunks : chunkify 2 [1; 2; 3]%Z = [[1; 2]; [3; 0]]%Z /\ pad_len 2 3 = 1.
 Proof. split; reflexivity. Qed.
 Print Assumptions C17_nonvacuous_chunks.
